@@ -83,7 +83,7 @@ TARGETS.append(dict(
     module="pyp0f.net.signatures.tcp", func="TCPPacketSignature.calculate_window_multiplier", file="WindowMultiplier",
     lean="windowMult", import_="P0f.Model.WMult",
     pyparams=["self"], params=[("p", "WIn")], ret="Tuple:Int,Bool", lean_ret="Int × Bool",
-    env=WIN_ENV, list_types={"divs": "List:Tuple:Int,Bool"},
+    env=WIN_ENV, list_types={"divs": "List:Tuple:Int,Bool"}, list_elem_hint="Tuple:Int,Bool",
     calls={"WindowMultiplier": tuple_ctor("value", "is_mtu")},
     alias="def windowMult (p : WIn) : Int × Bool := P0f.windowMult p\n",
 ))
